@@ -18,6 +18,7 @@ import LyModel.Diff.Drv13
 import LyModel.Ctx.Drv
 import LyModel.Merge.Drv
 import LyModel.Valid.Drv
+import LyModel.Yin.Drv
 /-! Dispatch table of the line-protocol driver: one handler per component. -/
 namespace LyModel.Drv
 
@@ -43,6 +44,7 @@ def dispatch (comp op : String) (args : List String) : String :=
   | "ctx" => Ctx.Drv.handle op args
   | "merge" => Merge.Drv.handle op args
   | "valid" => Valid.Drv.handle op args
+  | "yin" => Yin.Drv.handle op args
   | _ => "err NoSuchComponent"
 
 end LyModel.Drv
